@@ -16,6 +16,7 @@ from typing import Any, Callable, Iterator
 from .errors import AnalysisError, BudgetExceeded
 from .loader import SCHEMA_MODULES, Program
 from .values import (
+    SPos,
     ADict,
     AIter,
     AList,
@@ -1606,6 +1607,15 @@ class Interp:
             if isinstance(a, Unknown) and isinstance(b, Unknown) and repr(ka) == repr(kb) and not (isinstance(ka, tuple) and ka and ka[0] == "fresh"):
                 return True  # the same unknown quantity
             return Unknown(("eq",) + tuple(sorted((repr(ka), repr(kb)))), f"{a!r}=={b!r}")
+        if isinstance(a, SPos) or isinstance(b, SPos):
+            if isinstance(a, SPos) and isinstance(b, SPos):
+                return a == b if a.s == b.s and self.models._parts(a.head) == self.models._parts(b.head) else self._cmp_pos(ast.GtE, a, b) and self._cmp_pos(ast.LtE, a, b)
+            p, n = (a, b) if isinstance(a, SPos) else (b, a)
+            if isinstance(n, int) and not isinstance(n, bool):
+                if n < p.delta:
+                    return False
+                return self._cmp_pos(ast.GtE, p, n) and self._cmp_pos(ast.LtE, p, n)
+            return False
         if isinstance(a, Obj) or isinstance(b, Obj):
             for x, y in ((a, b), (b, a)):
                 if isinstance(x, Obj):
@@ -1965,6 +1975,8 @@ class Interp:
             return r
         if isinstance(a, Unknown) or isinstance(b, Unknown):
             return Unknown(("cmp", op.__name__, _key(a), _key(b)), f"{a!r} {op.__name__} {b!r}")
+        if isinstance(a, SPos) or isinstance(b, SPos):
+            return self._cmp_pos(op, a, b)
         if isinstance(a, (int, float)) and isinstance(b, (int, float)):
             return {ast.Lt: a < b, ast.LtE: a <= b, ast.Gt: a > b, ast.GtE: a >= b}[op]
         if isinstance(a, str) and isinstance(b, str):
@@ -2002,6 +2014,59 @@ class Interp:
             raise self.exc("TypeError", f"'{ {ast.Lt: '<', ast.LtE: '<=', ast.Gt: '>', ast.GtE: '>='}[op] }' not supported between instances of '{type(a).__name__}' and '{type(b).__name__}'")
         raise self.unsupported(f"ordering comparison of {a!r} and {b!r}")
 
+    def _cmp_pos(self, op: type, a: Any, b: Any) -> Any:
+        """Ordering of symbolic positions: against integers (a position is >= its delta) and against each other when
+        one head is a prefix of the other."""
+        table = {ast.Lt: lambda x: x < 0, ast.LtE: lambda x: x <= 0, ast.Gt: lambda x: x > 0, ast.GtE: lambda x: x >= 0}
+        if isinstance(a, SPos) and isinstance(b, SPos):
+            if a.s != b.s:
+                raise self.unsupported("comparison of positions in different strings")
+            pa, pb = self.models._parts(a.head), self.models._parts(b.head)
+
+            def is_prefix(x: list, y: list) -> bool:
+                if len(x) > len(y):
+                    return False
+                for i, p in enumerate(x):
+                    if p == y[i]:
+                        continue
+                    if i == len(x) - 1 and isinstance(p, str) and isinstance(y[i], str) and y[i].startswith(p):
+                        return True
+                    return False
+                return True
+
+            if pa == pb:
+                return table[op](a.delta - b.delta)
+            if is_prefix(pa, pb) and a.delta <= b.delta:
+                return table[op](-1)
+            if is_prefix(pb, pa) and b.delta <= a.delta:
+                return table[op](1)
+            raise self.unsupported(f"ordering of {a!r} and {b!r}")
+        if isinstance(a, SPos) and isinstance(b, int):
+            # value = len(head) + delta >= delta
+            if a.delta > b:
+                return table[op](1)
+            if a.delta == b:
+                if op is ast.Lt:
+                    return False
+                if op is ast.GtE:
+                    return True
+                ne = self._pos_head_nonempty(a)
+                if ne is True:
+                    return table[op](1)
+                if ne is False:
+                    return table[op](0)
+            raise self.unsupported(f"ordering of {a!r} and {b!r}")
+        if isinstance(b, SPos) and isinstance(a, int):
+            flip = {ast.Lt: ast.Gt, ast.LtE: ast.GtE, ast.Gt: ast.Lt, ast.GtE: ast.LtE}[op]
+            return self._cmp_pos(flip, b, a)
+        raise self.unsupported(f"ordering of {a!r} and {b!r}")
+
+    def _pos_head_nonempty(self, p: Any) -> bool | None:
+        h = p.head
+        if isinstance(h, str):
+            return bool(h)
+        return _sstr_nonempty(h)
+
     def contains(self, container: Any, item: Any) -> Any:
         if isinstance(container, bytes) and isinstance(item, (int, bytes)) and not isinstance(item, bool):
             return item in container
@@ -2035,6 +2100,10 @@ class Interp:
         return self.binop(type(node.op), self.eval(node.left, env), self.eval(node.right, env))
 
     def binop(self, op: type, a: Any, b: Any, inplace: bool = False) -> Any:
+        if isinstance(a, SPos) and isinstance(b, int) and not isinstance(b, bool) and op in (ast.Add, ast.Sub):
+            return SPos(a.s, a.head, a.delta + (b if op is ast.Add else -b))
+        if isinstance(b, SPos) and isinstance(a, int) and not isinstance(a, bool) and op is ast.Add:
+            return SPos(b.s, b.head, b.delta + a)
         if op is ast.BitOr:
             if _is_typeish(a) and _is_typeish(b):
                 return ExtRef("typing.Union")
